@@ -77,7 +77,7 @@ def normalise(toks, user_names):
     i = 0
     while i < len(out):
         if (out[i] == "(" and i + 1 < len(out) and out[i + 1] == ")" and i >= 2
-                and out[i - 2] == "SUBROUTINE"):
+                and out[i - 2] in ("SUBROUTINE", "ENTRY")):
             i += 2
             continue
         # explicit KIND= / LEN= right after the opening parenthesis of a type selector is a documented canonicalisation
